@@ -291,7 +291,7 @@ def process_kernel_batch(cases, stats, worker, sanitize=True, cc="clang-14"):
 INTV = ["x0", "x1", "x2", "x3"]
 FLTV = ["f0", "f1", "f2", "f3"]
 INT_LITS = [0, 1, 2, 3, -1, 7]
-FLT_LITS = [0.0, 1.0, 0.5, 2.5, 0.1, -1.5, 1e16]
+FLT_LITS = [0.0, 1.0, 0.5, 2.5, 0.1, -1.5, 1e16, 0.30000000000000004, 3.141592653589793, 1234567890123456.0, 5e-324]
 
 
 @st.composite
